@@ -72,6 +72,7 @@ ASSUMPTIONS = ["float64 arithmetic modelled as exact real arithmetic",
                "concretised twin of every item)"]
 ITEM_TIMEOUT = {"quick": 150, "thorough": 900}
 REPLAYS_PER_GROUP = 2
+MAX_REPLAYS = 1000
 
 
 # ------------------------------------------------------------------------------------------------ slices
